@@ -72,8 +72,9 @@ def rule_R02_1(ctx, restrict_fns=None, rule_id="R02.1"):
     r = RuleResult(rule_id, "no MutexGuard<T> is held across a call that may "
                    "lock a Mutex<T> (descent into own children exempt)",
                    "a second try_lock on a held cell unwraps an Err: exit 101")
-    eff = ctx.memo("lock_eff", lambda: locks.lock_effects(prog))
-    refine = ctx.memo("op_refiner", lambda: build_op_refiner(ctx))
+    base_eff = ctx.memo("lock_eff", lambda: locks.lock_effects(prog))
+    eff, eff_by_op, site_variants = ctx.memo("lock_eff_refined",
+                                             lambda: refined_effects(ctx, base_eff))
     acq = 0
     fns_with = 0
     for f in prog.hand_fns():
@@ -109,12 +110,6 @@ def rule_R02_1(ctx, restrict_fns=None, rule_id="R02.1"):
                            "own contents: exempt]")
                     r.ok()
                     continue
-                # operator-variant refinement
-                why = refine(f, c, T) if refine else None
-                if why:
-                    r.inst(inst + " [discharged: %s]" % why)
-                    r.ok()
-                    continue
                 r.inst(inst + " [CONFLICT]")
                 r.fail("%s | held=Mutex<%s> callee=%s"
                        % (f.path, locks.short_ty(T), name),
@@ -125,6 +120,10 @@ def rule_R02_1(ctx, restrict_fns=None, rule_id="R02.1"):
                        % (f.path, locks.short_ty(T), name, locks.short_ty(T),
                           sorted(srcs)), where=c.loc)
     if restrict_fns is None:
+        for v, e in sorted(eff_by_op.items()):
+            r.notes.append("operator %s may lock %s" % (v, sorted(locks.short_ty(t) for t in e)))
+        for (p, bb), vs in sorted(site_variants.items()):
+            r.notes.append("operator call site in %s receives ops %s" % (p, sorted(vs)))
         r.require_floor("try_lock acquisitions", acq, 35)
         r.notes.append("%d try_lock acquisitions in %d functions" % (acq, fns_with))
     if not r.obligations:
@@ -132,15 +131,19 @@ def rule_R02_1(ctx, restrict_fns=None, rule_id="R02.1"):
     return r
 
 
-def build_op_refiner(ctx):
-    """Discharge `guard on T held across a call chain into the operator
-    function` when no BinaryOp variant that can reach that call can lock T.
-    Needs the provenance engine; returns None when unavailable."""
-    try:
-        import oprefine
-    except ImportError:
-        return None
-    return oprefine.build(ctx)
+def refined_effects(ctx, base_eff):
+    """Variant-indexed lock effect of the operator function: each of its call
+    sites contributes only the effects of the BinaryOp variants that can reach
+    the `op` argument there (DESIGN §4 R02.1)."""
+    import ops
+    import prov
+    prog = ctx.prog
+    cands = ops.find_operator_fn(prog)
+    if len(cands) != 1:
+        return base_eff, {}, {}
+    ofn, op_p, _, _ = cands[0]
+    pv = ctx.memo("prov", lambda: prov.Prov(prog))
+    return locks.refined_lock_effects(prog, base_eff, ofn, op_p, pv, call_lock_effect)
 
 
 def rule_R02_2(ctx):
